@@ -64,7 +64,7 @@ func TestReaderFlagsEachRule(t *testing.T) {
 	cases := []struct{ name, from, to, want string }{
 		{"undeclared", `database "B" as _1` + "\n", "", "decl|used-not-declared"},
 		{"declared twice", `database "B" as _1`, `database "B" as _1` + "\n" + `control "B" as _1`, "decl|declared-twice"},
-		{"missing end", "else two\n [<--_0 : \nend\n", "else two\n [<--_0 : \n", "block|box-inside-block"},
+		{"missing end", "  group g\n  end\n", "  group g\n", "block|block-not-closed(opt)"},
 		{"else in opt", " loop for each y\n", " loop for each y\nelse z\n", "block|else-outside-alt(in loop)"},
 		{"extra end", "  group g\n  end\n", "  group g\n  end\n end\n", "block|end-without-open-block"},
 		{"deactivate twice", " deactivate _1\n", " deactivate _1\n deactivate _1\n", "pair|deactivate-below-zero"},
